@@ -28,7 +28,7 @@ def pool():
         datetime.datetime(2021, 3, 14, 3, 30), datetime.datetime(1999, 12, 31, 12, tzinfo=TZ(datetime.timedelta(hours=5, minutes=30))),
         datetime.date(1970, 1, 1), datetime.datetime(2020, 1, 1, 0, 0, 0, 5500),
         [], [1], [1.0, 'a'], [[1]], [None], [0], [1, 2], [1, 2.5], [2], [1, 3], [1, 2, 3], [3, 0, 0], [[2], 1], [[1, 5]], [True], ['a', 'b'], ['b'],
-        {}, {'a': 1}, {'a': 1.0, 'b': [1]}, {'b': 1}, {'a': None}, {'a': True}, {'a': False}, {'a': 0}, {'a': [2]}, {'a': [1, 3]}, {'a': 2, 'b': 0},
+        {}, {'a': 1}, {'a': 1.0, 'b': [1]}, {'b': 1}, {'a': None}, {'a': True}, {'a': False}, {'a': 0}, {'a': [2]}, {'a': [1, 3]}, {'a': 2, 'b': 0}, {'b': 1, 'a': 2}, {'b': 2, 'a': 1},
         f1, f2, re.compile('a'), re.compile('b'),
     ]
 
